@@ -664,3 +664,29 @@ pub fn strict_of_lax(l: &RawLax) -> Plain {
     }
     p
 }
+
+/// drop the dead nodes of a plain model whose alive flags and node references are all constants
+/// (the case for lax diagrams, whose identifiers are concrete); identity when every node is alive
+pub fn compact(p: &Plain) -> Plain {
+    if p.alive.iter().all(|a| *a == tm::TRUE) {
+        return p.clone();
+    }
+    let alive: Vec<bool> = p.alive.iter().map(|a| tm::as_const(*a).expect("ENGINE-ERROR: compact needs concrete alive flags") != 0).collect();
+    let mut new_index = vec![usize::MAX; p.n];
+    let mut k = 0;
+    for u in 0..p.n {
+        if alive[u] {
+            new_index[u] = k;
+            k += 1;
+        }
+    }
+    let m = |t: &T| ci(new_index[tm::as_const(*t).expect("ENGINE-ERROR: compact needs concrete references") as usize]);
+    Plain {
+        n: k,
+        alive: vec![tm::TRUE; k],
+        lab: (0..p.n).filter(|u| alive[*u]).map(|u| p.lab[u]).collect(),
+        s: p.s.iter().map(m).collect(),
+        t: p.t.iter().map(m).collect(),
+        edges: p.edges.iter().map(|e| PEdge { lab: e.lab, src: e.src.iter().map(m).collect(), tgt: e.tgt.iter().map(m).collect() }).collect(),
+    }
+}
